@@ -14,17 +14,17 @@ func init() {
 			"a count profile of another length than the alignment is outside the domain",
 			"absence of violations is established on the explored cases only",
 		},
-		LevelText: "Generated-input search against naive reference computations: about 110 000 (quick) to 3 million (thorough) column-wise generated alignments with forced ties, all-gap and all-N columns, every statistic of the statement recomputed from the columns, 30-fold repetition for the tie-breaking statistics, all site indices from -1 to L, and 1 500 to 12 000 command executions read with independent table readers. Shows absence of violations on what was explored.",
+		LevelText: "Generated-input search against naive reference computations: about 225 000 (quick) to 3 million (thorough) column-wise generated alignments with forced ties, all-gap and all-N columns, every statistic of the statement recomputed from the columns, 30-fold repetition for the tie-breaking statistics, all site indices from -1 to L, and 2 500 to 12 000 command executions read with independent table readers. Shows absence of violations on what was explored.",
 		LevelNote: "trusts the harness's naive definitions (taken from the doc comments and the pinned tests), its IUPAC set table and its minimal output readers",
 		Technique: "property-based testing (rapid): reference model per statistic, validity predicate for ties, repetition for determinism, boundary indices; command-line differential",
 		DesignRef: "DESIGN.md section 5, C14",
 		Runs: []runSpec{
-			{Name: "counts", Test: "^TestCounts$", Quick: 20000, Thorough: 100000, Shards: 4},
-			{Name: "majority", Test: "^TestMajority$", Quick: 12000, Thorough: 40000, Shards: 16},
-			{Name: "site-measures", Test: "^TestSiteMeasures$", Quick: 30000, Thorough: 100000, Shards: 8},
-			{Name: "unique", Test: "^TestUnique$", Quick: 20000, Thorough: 100000, Shards: 4},
-			{Name: "reference", Test: "^TestReference$", Quick: 30000, Thorough: 100000, Shards: 8},
-			{Name: "cli", Test: "^TestCLI$", Quick: 1500, Thorough: 3000, Shards: 4},
+			{Name: "counts", Test: "^TestCounts$", Quick: 40000, Thorough: 100000, Shards: 4},
+			{Name: "majority", Test: "^TestMajority$", Quick: 24000, Thorough: 40000, Shards: 16},
+			{Name: "site-measures", Test: "^TestSiteMeasures$", Quick: 60000, Thorough: 100000, Shards: 8},
+			{Name: "unique", Test: "^TestUnique$", Quick: 40000, Thorough: 100000, Shards: 4},
+			{Name: "reference", Test: "^TestReference$", Quick: 60000, Thorough: 100000, Shards: 8},
+			{Name: "cli", Test: "^TestCLI$", Quick: 2500, Thorough: 3000, Shards: 4},
 		},
 	})
 }
